@@ -16,23 +16,25 @@ def pairs(ck):
     while done < n and tries < n * 6:
         tries += 1
         r = random.Random(ck.rng.getrandbits(48))
-        if tries % 3 == 0:
-            # deep nesting: an aggregate over something direct and over a long chain of nested aggregates ending in a shared
-            # aggregate / build / service (late requesters of aggregates, `actual` flags collected in unusual orders)
+        hold = 0.0
+        if tries % 2 == 0:
+            # deep nesting: an aggregate reached directly and through a long chain of nested aggregates
             fam = 'deepnest'
             depth = r.choice([5, 12, 40])
-            leafkind = r.choice(['build', 'service', 'build'])
-            T = {'leaf': {'kind': leafkind, 'deps': []}, 'group': {'kind': 'aggregate', 'deps': ['leaf']}}
-            prev = r.choice(['group', 'leaf'])
+            if r.random() < 0.5:
+                # (A) late requester of an aggregate: all -> [group, d1], d1 -> ... -> dN -> [group], group -> [slow]; the slow
+                #     build is kept in progress until the requests travelling down the chain have arrived
+                T = {'slow': {'kind': 'build', 'deps': []}, 'group': {'kind': 'aggregate', 'deps': ['slow']}}
+                prev = 'group'
+                hold = 0.4
+            else:
+                # (B) `actual` collected in an unusual order: a real service next to a long service-less nested branch
+                T = {'fast': {'kind': r.choice(['build', 'aggregate']), 'deps': []}, 'svc2': {'kind': 'service', 'deps': []}}
+                prev = 'fast'
             for i in range(depth, 0, -1):
                 T['d%d' % i] = {'kind': 'aggregate', 'deps': [prev]}
                 prev = 'd%d' % i
-            other = r.choice(['group', 'leaf', 'svc2', 'fast'])
-            if other == 'svc2':
-                T['svc2'] = {'kind': 'service', 'deps': []}
-            if other == 'fast':
-                T['fast'] = {'kind': 'build', 'deps': []}
-            tops = [other, 'd1']
+            tops = (['group', 'd1'] if 'group' in T else ['svc2', 'd1'])
             r.shuffle(tops)
             T['all'] = {'kind': 'aggregate', 'deps': tops}
             roots = ['all']
@@ -49,7 +51,7 @@ def pairs(ck):
             builds = [t for t in sysrun.closure(T, [G]) if T[t]['kind'] == 'build']
             if builds:
                 fail = {r.choice(builds)}
-        obs, V = sysrun.aggregate_pair(r, T, G, fail=fail, tag='C20_%d' % done)
+        obs, V = sysrun.aggregate_pair(r, T, G, fail=fail if fam != 'deepnest' else set(), tag='C20_%d' % done, hold_s=hold)
         done += 1
         ck.count(('pair', json.dumps(T, sort_keys=True), G, tuple(sorted(fail))), nontrivial=True,
                  sample={'family': fam, 'targets': T, 'aggregate': G, 'fail': sorted(fail),
